@@ -43,7 +43,7 @@ def run(ctx):
                  ("C02-R7", "delete_all kills what the entities join yields")]:
         ctx.rule(r, t)
     for cfg in configs(ctx.tier):
-        facts = ctx.facts(cfg)
+        facts = ctx.xfacts(cfg)
         model = AllocModel(facts)
         alive = AliveClass(facts)
         r1(ctx, facts, model, alive)
@@ -87,7 +87,7 @@ def r1(ctx, facts, model, alive):
         xs = set()
         for bb, t in b.calls():
             c = t["callee"]
-            if c.get("path") in READERS or c.get("resolved") in READERS:
+            if c.get("path") in READERS or c.get("resolved") in READERS or b.src(bb) in READERS:
                 continue
             idx_args = []
             for ai, a in enumerate(t["args"]):
@@ -124,34 +124,71 @@ def r1(ctx, facts, model, alive):
         ctx.ob("C02-R1", "EntitiesRes::delete forwards to the checked deferred kill", ok, dl.loc(), "" if ok else "EntitiesRes::delete calls %s" % tg)
 
 
+def batch_loops(b):
+    """loops over the batch parameter: (block of the next() call, target of its Some edge)"""
+    out = []
+    for nbb, nt in b.calls():
+        if nt["callee"].get("path") != "std::iter::Iterator::next" or nt.get("ghost"):
+            continue
+        if not any(r[0] == "param" and r[1] == 2 for r in b.roots(b.arg_origin(nbb, 0))):
+            continue
+        for ve in b.variant_edges(lambda so: so == ("call", nbb, ())):
+            if ve["edges"].get("Some"):
+                out.append((nbb, ve["edges"]["Some"][1]))
+    return out
+
+
 def r2(ctx, facts, model):
     for b in handle_bodies(model):
         if "usize" not in b.ltype[0]:
             continue
         n = 0
+        loops = batch_loops(b)
         for ebb, ei, erv in err_aggregates(b):
-            if True:
-                d = ("stmt", ebb, ei)
-                o = b.operand_origin(erv["ops"][0])
-                # payload tuple (err, usize): find the usize component
-                pos = None
-                if o[0] == "agg":
-                    rv = b.blocks[o[1]]["stmts"][o[2]]["rv"]
-                    for op in rv["ops"]:
-                        if isinstance(op, dict) and op.get("ty") == "usize":
-                            pos = b.operand_origin(op)
-                ok = False
-                why = "no usize component in the Err payload (%r)" % (o,)
-                if pos is not None:
-                    why = "error position origin %r is not the enumerate() counter of the current item" % (pos,)
-                    if pos[0] == "call" and pos[2][:1] == ("as Some",) and pos[2][-1:] == ("0",):
-                        c = b.term(pos[1])["callee"]
-                        if c.get("path") == "std::iter::Iterator::next" and "Enumerate" in (c.get("self_ty") or ""):
-                            # and the iterated collection is the batch parameter
-                            ok = any(r[0] == "param" and r[1] == 2 for r in b.roots(b.arg_origin(pos[1], 0)))
-                            why = "" if ok else "the enumerated iterator is not over the batch parameter"
-                n += 1
-                ctx.ob("C02-R2", "%s Err position = loop index" % b.path, ok, b.loc(line=b.blocks[d[1]]["stmts"][d[2]].get("line")), why)
+            at = (ebb, ei)
+            o = b.operand_origin(erv["ops"][0], at=at)
+            # payload tuple (err, usize): find the usize component
+            pos = posop = pat = None
+            if o[0] == "agg":
+                pat = (o[1], o[2])
+                rv = b.blocks[o[1]]["stmts"][o[2]]["rv"]
+                for op in rv["ops"]:
+                    if isinstance(op, dict) and op.get("ty") == "usize":
+                        posop = op
+                        pos = b.operand_origin(op, at=pat)
+            ok = False
+            why = "no usize component in the Err payload (%r)" % (o,)
+            if pos is not None:
+                why = None
+                # (a) the enumerate() counter of the current item of a loop over the batch
+                if pos[0] == "call" and pos[2][:1] == ("as Some",) and pos[2][-1:] == ("0",):
+                    c = b.term(pos[1])["callee"]
+                    if c.get("path") == "std::iter::Iterator::next" and "Enumerate" in (c.get("self_ty") or ""):
+                        ok = any(r[0] == "param" and r[1] == 2 for r in b.roots(b.arg_origin(pos[1], 0)))
+                        why = "" if ok else "the enumerated iterator is not over the batch parameter"
+                # (b) a counter in step with a loop over the batch (also what Iterator::position is rewritten to)
+                if why is None:
+                    root = b.copy_root(posop, pat)
+                    tried = []
+                    if root is not None:
+                        for nbb, some_t in loops:
+                            good, w = b.counts_iterations(root[0], nbb, some_t, [ebb, pat[0]])
+                            if good:
+                                ok, why = True, ""
+                                break
+                            tried.append(w)
+                    if why is None:
+                        deps = b.deps(pos)
+                        understood = pos[0] in ("const", "param") or any(
+                            d[0] == "call" and b.term(d[1])["callee"].get("path") == "std::iter::Iterator::next" for d in deps) or tried
+                        if understood:
+                            why = "error position %r is neither the enumerate() counter of the rejected element nor a count of the completed iterations (%s)" % (
+                                pos, "; ".join(sorted(set(tried))) or "no loop counter")
+                        else:
+                            ok = "undetermined"
+                            why = "cannot relate the error position %r to the loop over the batch" % (pos,)
+            n += 1
+            ctx.ob("C02-R2", "%s Err position = loop index" % b.path, ok, b.loc(line=b.blocks[ebb]["stmts"][ei].get("line")), why)
         ctx.floor("C02-R2", "Err sites carrying a position in %s" % b.name, n, 1)
 
 
@@ -164,7 +201,9 @@ def r3(ctx, facts, model):
             if k is not None:
                 io_ = b.arg_origin(b.call_of(b.arg_origin(dbb, 0))[0], 1) if b.call_of(b.arg_origin(dbb, 0)) else ("unknown",)
                 sites.append((dbb, io_, k, "generation slot dies"))
-        for i, (bb, io, key, what) in enumerate(sites):
+        ords = b.ordinals([x[0] for x in sites])
+        for bb, io, key, what in sites:
+            i = ords[bb]
             n += 1
             rem = [rbb for rbb, rt in model.calls_on_field(b, ("killed",), {"remove"}, "AtomicBitSet") if model.index_key(b, b.arg_origin(rbb, 1)) == key]
             okA = False
@@ -237,7 +276,7 @@ def callee_set(facts, b, depth=2, _seen=None):
     if b.path in _seen:
         return out
     _seen.add(b.path)
-    for bb, t in b.calls():
+    for bb, t in b.real_calls():
         c = t["callee"]
         p = c.get("path")
         if not p:
@@ -278,11 +317,14 @@ def r5(ctx, facts, model):
     ctx.ob("C02-R5", "the entities join get() impls agree", ok, gets[0].loc() if gets else "",
            "" if ok else "callee sets differ between %s" % {k: sorted(v) for k, v in sets.items()})
     aa = [b for b in model.bodies if model.calls_on_field(b, ("raised",), {"add_atomic"}, "AtomicBitSet")]
+    def gen_part(cs):
+        return {p for p in cs if p.startswith(("world::entity::Generation::", "world::entity::ZeroableGeneration::", "world::entity::Allocator::generation"))}
     for b in aa:
         s = callee_set(facts, b)
-        ok2 = bool(vals) and vals[0] <= s
+        ok2 = bool(vals) and vals[0] <= s and gen_part(vals[0]) == gen_part(s)
         ctx.ob("C02-R5", "%s computes the new handle's generation like the entities join" % b.path, ok2, b.loc(),
-               "" if ok2 else "missing in the deferred allocation: %s" % sorted(vals[0] - s if vals else []))
+               "" if ok2 else "the deferred allocation and the entities join disagree on how the generation of an index is computed: "
+               "only in the join %s, only in the allocation %s" % (sorted(vals[0] - s if vals else []), sorted(gen_part(s) - gen_part(vals[0] if vals else set()))))
     # masks agree
     masks = {}
     for im in facts.impls:
